@@ -119,8 +119,8 @@ def judge_tok(ctx, cases):
     with open(cases, "rb") as fi, open(trace, "wb") as fo:
         ctx.run([xb, "tok-exec"], stdin=fi, stdout=fo, timeout=1800)
     tl = open(trace, "rb").readlines()
-    chunk = max(50, len(tl) // PAR + 1)
-    res = ctx.validate("TraceTokenEvents", trace, cfg=TOK_CFG, chunk=chunk, par=PAR, heap="4g", timeout=1800)
+    chunk = max(50, len(tl) // (PAR + 2) + 1)
+    res = ctx.validate("TraceTokenEvents", trace, cfg=TOK_CFG, chunk=chunk, par=PAR + 2, heap="4g", timeout=1800)
     ncalls = 0
     for l in tl:
         i = l.find(b'"calls":')
@@ -211,8 +211,10 @@ def tok_cases(ctx):
             out.append({"src": "tlc", "x": x, "m": {"t": t, "k": k, "b": b}, "y": y, "ne": o["ne"], "nd": o["nd"]})
         mk("none", 0, 0, x)
         if ctx.quick:
-            cuts = range(len(x)) if len(x) <= 6 else rnd.sample(range(len(x)), 3)
-            sw = o["sw"] if len(o["sw"]) <= 3 else rnd.sample(o["sw"], 3)
+            if rnd.random() < 0.35:
+                continue
+            cuts = range(len(x)) if len(x) <= 4 else rnd.sample(range(len(x)), 2)
+            sw = o["sw"] if len(o["sw"]) <= 2 else rnd.sample(o["sw"], 2)
         else:
             cuts = range(len(x)) if len(x) <= 30 else rnd.sample(range(len(x)), 14)
             sw = o["sw"] if len(o["sw"]) <= 8 else rnd.sample(o["sw"], 8)
@@ -227,7 +229,7 @@ def tok_cases(ctx):
         raise Infra("TokenEventsGen produced only %d texts" % texts)
     ctx.cov["token_model_texts"] = texts
     xb = ctx.build("xwalk")
-    p = ctx.run([xb, "tok-gen", "-n", "160" if ctx.quick else "5000"])
+    p = ctx.run([xb, "tok-gen", "-n", "120" if ctx.quick else "5000"])
     for line in p.stdout.decode().splitlines():
         if line.strip():
             out.append(json.loads(line))
